@@ -140,35 +140,37 @@ inductive WPoll
   | pending
   deriving DecidableEq, Repr, Inhabited
 
-/-- `poll_flush` of the framed sink: drain the write buffer, then flush the transport.
-    Returns the poll result, the remaining buffer, the transport and the effects. -/
+/-- `poll_flush` of the framed sink with `fuel` iterations of its write loop: drain the write
+    buffer, then flush the transport.  Returns the poll result, the remaining buffer, the
+    transport and the effects. -/
+def pollFlushFuel : Nat → Bytes → Transport → WPoll × Bytes × Transport × List Effect
+  | 0, wbuf, t => (.pending, wbuf, t, [])          -- not reached: see `pollFlush`
+  | fuel + 1, wbuf, t =>
+    if wbuf = [] then
+      match t.flushes with
+      | [] => (.ready, [], t, [])
+      | .ok :: fs => (.ready, [], { t with flushes := fs }, [])
+      | .err k :: fs => (.error k, [], { t with flushes := fs }, [])
+      | .pending :: fs => (.pending, [], { t with flushes := fs }, [])
+    else
+      match t.writes with
+      | [] =>
+        -- exhausted write script: the transport accepts everything at once
+        let (p, b, t', effs) := pollFlushFuel fuel [] t
+        (p, b, t', .write wbuf :: effs)
+      | .accept n :: ws =>
+        if n = 0 then (.error .writeZero, wbuf, { t with writes := ws }, [])
+        else
+          let (p, b, t', effs) := pollFlushFuel fuel (wbuf.drop (min n wbuf.length)) { t with writes := ws }
+          (p, b, t', .write (wbuf.take (min n wbuf.length)) :: effs)
+      | .zero :: ws => (.error .writeZero, wbuf, { t with writes := ws }, [])
+      | .err k :: ws => (.error k, wbuf, { t with writes := ws }, [])
+      | .pending :: ws => (.pending, wbuf, { t with writes := ws }, [])
+
+/-- `poll_flush`: every iteration of the write loop removes at least one byte from the
+    buffer, so `length + 1` iterations suffice -/
 def pollFlush (wbuf : Bytes) (t : Transport) : WPoll × Bytes × Transport × List Effect :=
-  if wbuf = [] then
-    match t.flushes with
-    | [] => (.ready, [], t, [])
-    | .ok :: fs => (.ready, [], { t with flushes := fs }, [])
-    | .err k :: fs => (.error k, [], { t with flushes := fs }, [])
-    | .pending :: fs => (.pending, [], { t with flushes := fs }, [])
-  else
-    match t.writes with
-    | [] =>
-      -- exhausted write script: the transport accepts everything at once
-      let (p, b, t', effs) := pollFlush [] t
-      (p, b, t', .write wbuf :: effs)
-    | .accept n :: ws =>
-      if n = 0 then (.error .writeZero, wbuf, { t with writes := ws }, [])
-      else
-        let (p, b, t', effs) := pollFlush (wbuf.drop (min n wbuf.length)) { t with writes := ws }
-        (p, b, t', .write (wbuf.take (min n wbuf.length)) :: effs)
-    | .zero :: ws => (.error .writeZero, wbuf, { t with writes := ws }, [])
-    | .err k :: ws => (.error k, wbuf, { t with writes := ws }, [])
-    | .pending :: ws => (.pending, wbuf, { t with writes := ws }, [])
-termination_by wbuf.length
-decreasing_by
-  all_goals
-    simp only [List.length_drop, List.length_nil]
-    have : wbuf.length > 0 := by cases wbuf <;> simp_all
-    omega
+  pollFlushFuel (wbuf.length + 1) wbuf t
 
 /-- `poll_ready`: flush first when the buffer has reached the back-pressure boundary -/
 def pollReady (wbuf : Bytes) (t : Transport) : WPoll × Bytes × Transport × List Effect :=
